@@ -1,6 +1,6 @@
 SPECIFICATION Spec
 CONSTANTS
   W = 12
-  Variant = "sum"
-INVARIANTS Value
+  Variant = "halves"
+INVARIANTS LenBoundClaimed
 CHECK_DEADLOCK FALSE
